@@ -24,6 +24,81 @@ def Q(a, b):
     return len(a) == len(b) and all(x == y or (x, y) in PAIRS for x, y in zip(a, b))
 
 
+def inline_scope_obligations():
+    """ST obligations on the live InlineScope tuple: rewrite_text_across_inlines joins all text below a scope into one
+    string, so 'pairs only within one paragraph / code blocks never change' needs every scope class to be one whose
+    children Marko parses as *inline* elements, i.e. whose __init__ (own or inherited) sets self.inline_body."""
+    import ast
+    import inspect
+    import textwrap
+    from flowmark.transforms import doc_transforms as T
+    recs = []
+    for cls in T.InlineScope:
+        ok, where = False, "no __init__ in the MRO assigns self.inline_body"
+        for k in cls.__mro__:
+            init = k.__dict__.get("__init__")
+            if init is None:
+                continue
+            try:
+                tree = ast.parse(textwrap.dedent(inspect.getsource(init)))
+            except (OSError, TypeError):
+                break
+            hit = any(isinstance(n, ast.Attribute) and n.attr == "inline_body" and isinstance(n.ctx, ast.Store)
+                      and isinstance(n.value, ast.Name) and n.value.id == "self" for n in ast.walk(tree))
+            ok, where = hit, "%s.__init__ %s self.inline_body" % (k.__qualname__, "assigns" if hit else "does not assign")
+            break          # the first __init__ in the MRO is the one that runs
+        recs.append({"oid": "shape/transforms.doc_transforms:InlineScope/%s_children_are_inline" % cls.__name__,
+                     "status": "discharged" if ok else "refuted",
+                     "src": "every class in InlineScope has inline children (Marko parses inline_body for it)", "detail": where})
+    return recs
+
+
+def static_obligations(tier):
+    return inline_scope_obligations()
+
+
+def replay(rec):
+    if "InlineScope/" not in rec.get("oid", ""):
+        return None
+    docs = ['Text.[^1]\n\n[^1]: He said "hello\n\n    world" again.\n', '- He said "hello\n\n  world" again.\n',
+            '> He said "hello\n>\n> world" again.\n', 'Text.[^1]\n\n[^1]: Run "this\n\n    ```\n    echo" done\n    ```\n']
+    for d in docs:
+        off, on = P.fmt(d, smartquotes=False), P.fmt(d, smartquotes=True)
+        if not Q(off, on) or not pairing_ok(off, on) or D.literal_spans(off) != D.literal_spans(on):
+            return {"reproduced": True, "input": {"text": d, "options": {"smartquotes": True}}, "got": on, "want": off}
+    return {"reproduced": False}
+
+
+def pairing_ok(off, on):
+    """every converted opening quote has its converted closing partner later in the same paragraph (chunks between
+    blank / quote-marker-only lines); a converted apostrophe needs none"""
+    chunks, cur = [], []
+    for lo, ln in zip(off.split("\n"), on.split("\n")):
+        if lo.strip(" >") == "":
+            chunks.append(cur)
+            cur = []
+        else:
+            cur.append((lo, ln))
+    chunks.append(cur)
+    for ch in chunks:
+        conv = [y for lo, ln in ch for x, y in zip(lo, ln) if x != y]
+        depth_d = depth_s = 0
+        for c in conv:
+            if c == "“":
+                depth_d += 1
+            elif c == "”":
+                depth_d -= 1
+                if depth_d < 0:
+                    return False
+            elif c == "‘":
+                depth_s += 1
+            elif c == "’" and depth_s > 0:
+                depth_s -= 1
+        if depth_d != 0 or depth_s != 0:
+            return False
+    return True
+
+
 def bounded(tier, seed):
     from flowmark.typography.smartquotes import smart_quotes
     viol, evals, distinct = [], 0, set()
@@ -44,7 +119,12 @@ def bounded(tier, seed):
     # document level: on vs off
     docs = D.documents(seed, 80 if tier == "quick" else 600, hazards=False)
     docs += ["He said \"it's `a \"q\" b` fine\" and 'x'.\n", "\"a\" <span title=\"t\"> [l](http://x \"T\") \\\"esc\\\" {% t a=\"b\" %} <!-- \"c\" -->\n",
-             "\"one\n\ntwo\" para\n", "| \"a\" | 'b' |\n|---|---|\n| it's | \"c\" |\n", "```\n\"code\" it's\n```\n"]
+             "\"one\n\ntwo\" para\n", "| \"a\" | 'b' |\n|---|---|\n| it's | \"c\" |\n", "```\n\"code\" it's\n```\n",
+             # a quote that opens in one block and "closes" in the next is never a pair
+             'He said "hello\n\nworld" again.\n', '- He said "hello\n\n  world" again.\n', '> He said "hello\n>\n> world" again.\n',
+             'Text.[^1]\n\n[^1]: He said "hello\n\n    world" again.\n', "Text.[^n]\n\n[^n]: The so-called 'first\n\n    part' of it.\n",
+             'Text.[^1]\n\n[^1]: Run "this\n\n    ```\n    echo" done\n    ```\n', '- a "b\n- c" d\n', '# Head "x\n\ny" z\n',
+             '| a "b | c" d |\n|---|---|\n| "e | f" |\n', 'Text.[^1]\n\n[^1]: He said "hello world" again.\n\n    And "more" here.\n']
     for d in docs:
         for o in (dict(width=88, semantic=False), dict(width=20, semantic=True)):
             off = P.fmt(d, smartquotes=False, **o)
@@ -53,12 +133,15 @@ def bounded(tier, seed):
             if not Q(off, on):
                 viol.append({"clause": "doc_Q", "input": {"text": d, "options": o, **P.doc_features(d)}, "got": on[:300], "want": off[:300]})
                 continue
+            if not pairing_ok(off, on):
+                viol.append({"clause": "paired_within_paragraph", "input": {"text": d, "options": o, **P.doc_features(d)}, "got": on[:300], "want": off[:300]})
             if D.literal_spans(off) != D.literal_spans(on):
                 viol.append({"clause": "doc_literals_unchanged", "input": {"text": d, "options": o, **P.doc_features(d)}, "got": on[:300]})
     return {"evaluations": evals, "distinct_nontrivial": len(distinct), "violations": viol,
             "samples": [{"text": "\"a\" it's"}, {"text": docs[-5]}],
             "rule": "smart_quotes on every string of length <= %d over the 13-symbol alphabet %r: Q(input, output) and template tags "
-                    "verbatim; documents of the document space + 5 targeted ones x 2 option sets: output with the option on is "
-                    "Q-related to the output with it off (same length, same line breaks) and has the same literal spans; distinct = "
+                    "verbatim; documents of the document space + 15 targeted ones (quotes split over paragraphs, list items, quote blocks, table cells, "
+                    "multi-block footnote definitions) x 2 option sets: output with the option on is "
+                    "Q-related to the output with it off (same length, same line breaks), every converted opening quote has its converted partner in the same paragraph, and has the same literal spans; distinct = "
                     "distinct changed outputs" % (maxlen, ALPHABET),
             "exhaustive": True, "bound": "strings <= %d symbols" % maxlen}
